@@ -32,6 +32,8 @@ class FloatLike (F : Type) where
   fract : F → F
   /-- Rust `f64::is_normal` (neither zero, subnormal, infinite nor NaN) -/
   isNormal : F → Bool
+  /-- Rust `f64::is_finite` (neither infinite nor NaN) -/
+  isFinite : F → Bool
   sqrt : F → F
   /-- Rust `f64::max` as compiled in the dev profile on this target
       (`if a < b {b} else if a is NaN {b} else {a}`) -/
